@@ -543,13 +543,22 @@ pub fn seg_bulk_case(n: usize, pattern: usize, mon: &SMon, rep: &mut Report, his
     run(&mut ex, SOp::Q { lo: a, hi: a, t: 12, take: 1 }, mon, rep, &mut ops)?;
     run(&mut ex, SOp::Q { lo: b, hi: b, t: 60, take: -1 }, mon, rep, &mut ops)?;
     run(&mut ex, SOp::Q { lo: 0, hi: 31, t: 60, take: -1 }, mon, rep, &mut ops)?;
+    // a second fill that is cleared while the lists are still huge, then reuse from time 0
+    for _ in 0..n {
+        run(&mut ex, SOp::Ins { lo: a, hi: b, exp: 5 }, &quiet, rep, &mut ops)?;
+    }
+    run(&mut ex, SOp::Clear, mon, rep, &mut ops)?;
+    run(&mut ex, SOp::Q { lo: 0, hi: 31, t: 0, take: -1 }, mon, rep, &mut ops)?;
+    run(&mut ex, SOp::Ins { lo: a, hi: b, exp: 3 }, mon, rep, &mut ops)?;
+    run(&mut ex, SOp::Q { lo: a, hi: a, t: 1, take: -1 }, mon, rep, &mut ops)?;
+    run(&mut ex, SOp::Q { lo: 0, hi: 31, t: 4, take: -1 }, mon, rep, &mut ops)?;
     Ok(())
 }
 
 pub fn suite_seg_bulk(cfg: &Cfg, rep: &mut Report) {
     let mon = SMon::from_list(cfg.str_or("mon", "all"));
     let max_n = cfg.num("max_n", 140_000) as usize;
-    let sizes: Vec<usize> = [300usize, 5_000, 70_000, 140_000, 300_000].into_iter().filter(|&x| x <= max_n).collect();
+    let sizes: Vec<usize> = [300usize, 5_000, 70_000, 140_000, 300_000, 1_200_000, 6_000_000].into_iter().filter(|&x| x <= max_n).collect();
     let mut idx = 0u64;
     for &n in &sizes {
         for pattern in 0..4 {
